@@ -174,7 +174,7 @@ SPEC = {
         "mocknode (harness/src/mocknode): serves the scripted pages/faults and records every frame; the runner "
         "derives from its trace the paging_state and the receiving node of every QUERY/EXECUTE of the statement and the "
         "number of Rows pages served before it",
-        "kind P (single page; Rows, Void, non-RESULT replies and an ignored error): ok only through the extracted accept_single or `ok not-run`, viol only when the "
+        "kind P (single page; Rows, Void, non-RESULT replies and an ignored error): ok only through the extracted accept_single (C07_accept_single_sound: sound w.r.t. the loop-free page specification) or `ok not-run`, viol only when the "
         "extracted prop_single_ok fails; the driver only parses the observation",
         "spec_page mirrors the retry loop clause by clause with a target count instead of targets; the independent part of "
         "the specification is the stream level (`expected`); C07_page_outcome_closed_form proves it equal to a loop-free form",
